@@ -6,7 +6,7 @@ proof part : props/C12.v — the Gallina transcription of Simulator.simulate/exe
              random choices (simulator_transcription_is_S); enumeration sound/complete; frozen
              state; sampler descriptors GENERATED from program/distribution/*.py
              (translate_sim.py -> gen/SimSamplers.v): support and parameter theorems for all
-             parameters; truncnormal_sampler_refuted.
+             parameters (TruncNormal included since /repo 5c6c4c3; the old rule: truncnormal_sampler_old_rule_refuted).
 tie (K)    : on every run the REAL simulator is driven by scripted random sources
              (tasks_sim.py) through every script of generated finite programs; each script's
              probability and whole state sequence is compared with the transcription executed
@@ -32,6 +32,8 @@ HEADER = ("From Coq Require Import List String QArith Qcanon ZArith.\n"
           "From Polar Require Import Qcx Dist Syntax Sem Simulator SimulatorParse SimulatorK.\n"
           "Import ListNotations.\nOpen Scope string_scope.\n")
 
+# signatures of the two defects this check found (both repaired in /repo: 5c6c4c3, f308946); they are reported under
+# these stable signatures again, with the concrete input, should they return
 KNOWN_TRUNCNORMAL = "TruncNormal.sample:unstandardised-bounds"
 KNOWN_TAIL_GOAL = "SimulationResult._goal_to_float:non-strict-bound-decided-false-at-equality"
 
@@ -980,7 +982,8 @@ def run(ctx):
         "states are total maps to Q: programs are initialised (reading an unset variable raises in the simulator); generators initialise every variable",
         "float(result) in Assignment.evaluate is not modelled: generated programs use integer/dyadic constants, values are compared as exact Fraction(float)",
         "wf_prog: the source program does not use names _t<digits...> (reserved for the parser's temporaries) and every probabilistic choice has total weight 1 "
-        "(true for the implicit last probability: C12_implicit_last_probability_has_unit_mass; explicit vectors are not validated by Polar — C19)",
+        "(true for the implicit last probability: C12_implicit_last_probability_has_unit_mass; constant explicit vectors are validated by "
+        "PolyAssignment since /repo 626892e; since 156ba8a get_unique_var skips names of the program text — under wf_prog nothing is skipped)",
         "that scipy.stats / random sample their documented laws is trusted (seeded draws are validation only)",
         "settings.transform_categoricals = False (default); the categorical-expansion option is C17's",
     ]
